@@ -82,8 +82,10 @@ pub fn check(sc: &Scenario, ex: &Exec, a: &Analysis) -> Vec<Violation> {
                     let gave_up_on_unwritable_peer = dt > 0
                         && matches!(&ex.done, Some(Err(e)) if e.contains("shutdown timeout"))
                         && ex.done_at_ms.map_or(false, |d| d + TAU >= rt + dt)
-                        && ex.io.writes.is_empty();
+                        && first.map_or(true, |r| !r.complete);
                     if gave_up_on_unwritable_peer {
+                        // (nothing, or only a part of the 408, could be written before the
+                        // disconnect timeout ended the connection)
                     } else if !is408 {
                         v.push(viol(P, "a", "slow-head-no-408", format!("the first head was not complete at the deadline ({rt} ms; complete at {:?}) but the first response is {:?}", head_complete_at, first.map(|r| r.status))));
                     } else {
